@@ -992,13 +992,20 @@ class DownloadWorld:
                                        recurse=True, preserve=preserve,
                                        error_handler=handler), dest)
 
-    def run_mget(self, pattern, entries, dest, cont):
-        """SFTPClient.mget(b's/<pattern>', dest, recurse=True): client-side
-        glob expansion over the hostile listing, then the copies."""
+    @staticmethod
+    def _pats(pattern):
+        if isinstance(pattern, bytes):
+            return b's/' + pattern
+        return [b's/' + x for x in pattern]
+
+    def run_mget(self, pattern, entries, dest, cont, recurse=True):
+        """SFTPClient.mget(b's/<pattern>' or a list of them, dest): client-side
+        glob expansion over the scripted listing, then the copies."""
         self.listing = _Listing(entries, by_occurrence=False)
         handler = (lambda exc: None) if cont else None
-        return self._run(self.sftp.mget(b's/' + pattern,
-                                        self.area.dest.encode(), recurse=True,
+        return self._run(self.sftp.mget(self._pats(pattern),
+                                        self.area.dest.encode(),
+                                        recurse=recurse,
                                         error_handler=handler), dest)
 
     def run_glob(self, pattern, entries, cont, sftpname=False):
@@ -1009,12 +1016,12 @@ class DownloadWorld:
 
         async def go():
             if sftpname:
-                res = await self.sftp.glob_sftpname(b's/' + pattern,
+                res = await self.sftp.glob_sftpname(self._pats(pattern),
                                                     error_handler=handler)
                 out['names'] = [n.filename for n in res]
             else:
                 out['names'] = list(await self.sftp.glob(
-                    b's/' + pattern, error_handler=handler))
+                    self._pats(pattern), error_handler=handler))
         r = self._run(go(), 'none')
         r['names'] = out.get('names')
         return r
